@@ -224,7 +224,16 @@ Fixpoint sem_vis (fuel k : nat) (f : func) (l : floc) (st : sstate) : list (opti
           | Next l' st' _ => let r := sem_vis fuel' k' f l' st' in (here st' ++ fst r, snd r)
           | Goto a st' => (here st', FGoto a)
           | Exit st' _ => (here st', FExit)
-          | Stuck e => ([], FStuck e)
+          | Stuck e =>
+              (* the operation itself may have succeeded and only the choice of the successor failed
+                 (no guard / several guards hold): the instruction still counts as visited *)
+              match loc_instruction f l with
+              | Some i => match exec_op st (i_op i) with
+                          | Ok (st', _) => (here st', FStuck e)
+                          | _ => ([], FStuck e)
+                          end
+              | None => ([], FStuck e)
+              end
           end
       end
   end.
@@ -240,6 +249,24 @@ Definition sem_agree (k : nat) (f1 f2 : func) (en : senv) : bool :=
       let fuel2 := (S k * (2 * length (f_blocks f2) + 4))%nat in
       vis_eqb (sem_vis fuel1 k f1 l1 st) (sem_vis fuel2 k f2 l2 st)
   | _, _ => false
+  end.
+
+(* ------------------------------------------------------------------ Exec/Sem.v as an interpretation of the items *)
+(* the instance of Lang.pexec's parameters given by the reference semantics: an instruction item runs
+   exec_op (an indirect branch or a fault ends the run), a guard holds when it denotes the 1-bit constant 1 *)
+Definition sem_do (s : sstate) (x : item) : option sstate :=
+  match x with
+  | Ins _ o => match exec_op s o with
+               | Ok (_, EvBranch _) => None
+               | Ok (s', _) => Some s'
+               | _ => None
+               end
+  | Grd _ => None
+  end.
+Definition sem_holds (s : sstate) (c : option expr) : bool :=
+  match c with
+  | None => true
+  | Some e => match den (st_env s) e with Ok v => (cbits v =? 1) && (cval v =? 1) | _ => false end
   end.
 
 (* ------------------------------------------------------------------ the case *)
